@@ -212,7 +212,7 @@ method.
 
 import re
 
-from copy import deepcopy
+from copy import copy
 
 from collections import defaultdict, namedtuple, deque
 
@@ -744,6 +744,25 @@ def make_matching_sequence(initial_sequence, *patterns, **kwargs):
     initial_matchers = [Matcher(pattern) for pattern in patterns]
     queue = deque([([], initial_sequence, initial_matchers, depth_limit)])
 
+    # The search states already queued. Because the search is breadth-first, a
+    # later route to a state already seen is never shorter (nor of higher
+    # priority) so it need not be explored again. NB: All matchers below are
+    # shallow copies sharing the NFAs of the initial_matchers so their
+    # 'cur_states' may be compared.
+    visited = set()
+
+    def enqueue(symbols_so_far, symbols_remaining, matchers, this_depth_limit):
+        state = (
+            len(symbols_remaining),
+            this_depth_limit,
+            tuple(frozenset(m.cur_states) for m in matchers),
+        )
+        if state not in visited:
+            visited.add(state)
+            queue.append(
+                (symbols_so_far, symbols_remaining, matchers, this_depth_limit)
+            )
+
     while queue:
         (
             symbols_so_far,
@@ -765,23 +784,20 @@ def make_matching_sequence(initial_sequence, *patterns, **kwargs):
                 for m in matchers
             ):
                 # The next symbol is matched by all matchers, move on!
-                new_matchers = deepcopy(matchers)
+                new_matchers = [copy(m) for m in matchers]
                 for m in new_matchers:
                     m.match_symbol(symbols_remaining[0])
-                queue.append(
-                    (
-                        symbols_so_far + [symbols_remaining[0]],
-                        symbols_remaining[1:],
-                        new_matchers,
-                        depth_limit,  # NB: Reset depth limit when a match is found
-                    )
+                enqueue(
+                    symbols_so_far + [symbols_remaining[0]],
+                    symbols_remaining[1:],
+                    new_matchers,
+                    depth_limit,  # NB: Reset depth limit when a match is found
                 )
-                continue
 
-        # If we reach this point the current symbol in the provided sequence
-        # was not matched by all of the matchers. We must now try inserting
-        # some other symbol into the sequence and see if it lets us get any
-        # further.
+        # Whether or not the current symbol in the provided sequence was
+        # matched, also try inserting some other symbol into the sequence at
+        # this point: matching the required symbol as early as possible is not
+        # always the shortest (or even a possible) way to satisfy the patterns.
 
         if this_depth_limit <= 0:
             # Depth limit reached, give up on this branch of the search
@@ -822,17 +838,14 @@ def make_matching_sequence(initial_sequence, *patterns, **kwargs):
             ),
         )
         for candidate_symbol in candidate_symbols:
-            new_matchers = deepcopy(matchers)
+            new_matchers = [copy(m) for m in matchers]
             for m in new_matchers:
                 m.match_symbol(candidate_symbol)
-            queue.append(
-                (
-                    symbols_so_far + [candidate_symbol],
-                    symbols_remaining,
-                    new_matchers,
-                    this_depth_limit - 1,
-                )
+            enqueue(
+                symbols_so_far + [candidate_symbol],
+                symbols_remaining,
+                new_matchers,
+                this_depth_limit - 1,
             )
-            continue
 
     raise ImpossibleSequenceError()
